@@ -92,6 +92,23 @@ type replayJob struct {
 
 // runNativeReplays executes the jobs with the native twin harness under `go test -overlay`.
 func runNativeReplays(cfg Config, hf *harnessFiles, pkg string, jobs []*replayJob) error {
+	// findings of kind "race" (a store into state shared between evaluations) are confirmed by the Go race detector:
+	// their replays run in a process of their own built with -race, one subtest per replay
+	var plain, race []*replayJob
+	for _, j := range jobs {
+		if j.Kind == "race" {
+			race = append(race, j)
+		} else {
+			plain = append(plain, j)
+		}
+	}
+	if len(race) > 0 && len(plain) > 0 {
+		if err := runNativeReplays(cfg, hf, pkg, plain); err != nil {
+			return err
+		}
+		return runNativeReplays(cfg, hf, pkg, race)
+	}
+	raceMode := len(race) > 0
 	if len(jobs) == 0 {
 		return nil
 	}
@@ -130,7 +147,7 @@ func runNativeReplays(cfg Config, hf *harnessFiles, pkg string, jobs []*replayJo
 	for _, n := range names {
 		fmt.Fprintf(&sb, "\t%q: %s,\n", n, n)
 	}
-	sb.WriteString("}\n\nfunc TestVerifReplay(t *testing.T) {\n\tfiles, _ := filepath.Glob(filepath.Join(os.Getenv(\"VERIF_REPLAY_DIR\"), \"*.trace.json\"))\n\tfor _, f := range files {\n\t\tlines := verifRunReplay(f, verifRegistry)\n\t\t_ = os.WriteFile(f+\".out\", []byte(strings.Join(lines, \"\\n\")+\"\\n\"), 0o644)\n\t}\n}\n")
+	sb.WriteString("}\n\nfunc TestVerifReplay(t *testing.T) {\n\tfiles, _ := filepath.Glob(filepath.Join(os.Getenv(\"VERIF_REPLAY_DIR\"), \"*.trace.json\"))\n\tfor _, f := range files {\n\t\tvar lines []string\n\t\t// a data race reported while the subtest runs fails that subtest (testing marks the running test)\n\t\tok := t.Run(filepath.Base(f), func(st *testing.T) { lines = verifRunReplay(f, verifRegistry) })\n\t\tif !ok {\n\t\t\tlines = append(lines, \"RACE\")\n\t\t}\n\t\t_ = os.WriteFile(f+\".out\", []byte(strings.Join(lines, \"\\n\")+\"\\n\"), 0o644)\n\t}\n}\n")
 	regPath := filepath.Join(scratch, "registry_test.go")
 	if err := os.WriteFile(regPath, []byte(sb.String()), 0o644); err != nil {
 		return err
@@ -145,7 +162,11 @@ func runNativeReplays(cfg Config, hf *harnessFiles, pkg string, jobs []*replayJo
 		data, _ := json.Marshal(j)
 		os.WriteFile(filepath.Join(trDir, fmt.Sprintf("%05d.trace.json", i)), data, 0o644)
 	}
-	cmd := exec.Command("go", "test", "-vet=off", "-count=1", "-timeout", "300s", "-overlay", ovPath, "-run", "^TestVerifReplay$", "./"+pkgDir)
+	goArgs := []string{"test", "-vet=off", "-count=1", "-timeout", "300s", "-overlay", ovPath, "-run", "^TestVerifReplay$", "./" + pkgDir}
+	if raceMode {
+		goArgs = append([]string{"test", "-race"}, goArgs[1:]...)
+	}
+	cmd := exec.Command("go", goArgs...)
 	cmd.Dir = cfg.Repo
 	cmd.Env = append(os.Environ(), "GOFLAGS=-mod=mod", "GOPROXY=off", "GOSUMDB=off", "GOTOOLCHAIN=local", "VERIF_REPLAY_DIR="+trDir)
 	outb, err := cmd.CombinedOutput()
@@ -411,6 +432,8 @@ func cmdCheck(args []string) int {
 			ok := false
 			if j.Kind == "panic" {
 				ok = hasPrefixLine(j.out, "PANIC ")
+			} else if j.Kind == "race" {
+				ok = containsLine(j.out, "RACE")
 			} else {
 				ok = containsLine(j.out, "ASSERTFAIL "+j.Label)
 			}
@@ -576,6 +599,8 @@ func doReplayFile(cfg Config, path string) int {
 	ok := false
 	if j.Kind == "panic" {
 		ok = hasPrefixLine(j.out, "PANIC ")
+	} else if j.Kind == "race" {
+		ok = containsLine(j.out, "RACE")
 	} else {
 		ok = containsLine(j.out, "ASSERTFAIL "+j.Label)
 	}
